@@ -84,6 +84,8 @@ class C04(Prop):
                 c = regex_match(rng, len(STRINGS))
             elif rng.chance(1, 10):
                 c = g.gfloat_bool(rng.range(0, 2))
+            elif rng.chance(1, 10):
+                c = poison_order(rng, len(STRINGS))
             probes = [g.gint(rng.range(0, 3)) for _ in range(rng.range(0, 4))]
             if not cond.has_big_range(c) and not any(cond.has_big_range(p) for p in probes):
                 break
@@ -252,6 +254,30 @@ def wildcard_sets(rng):
                        ("un", "not", ("var", None)), ("varin", None, ("int", 0), ("filesize",))])
     c = ("of", k, se, vs) if body is None else ("for", k, se, vs, body)
     return ("un", "not", c) if rng.chance(1, 4) else c
+
+
+def poison_order(rng, nvars):
+    """`and` / `or` over operands that need the string matches (P), are undefined (U) or are decided (D), in every
+    order: before the string scan the connective must stay pending as long as a P operand could still decide it,
+    whatever comes after it (an undefined operand counts as false, it does not cancel the pending one)."""
+    v = rng.below(nvars)
+    P = [("var", v), ("bin", "ge", ("count", v), ("int", 1)), ("varat", v, ("int", rng.choice([0, 1, 3]))),
+         ("un", "not", ("var", v))]
+    U = [("bin", "eq", ("readint", "uint8", ("int", 1000)), ("int", 1)), ("bin", "eq", ("bin", "div", ("int", 1), ("int", 0)), ("int", 1)),
+         ("bin", "gt", ("readint", "uint16", ("bin", "sub", ("filesize",), ("int", 1))), ("int", 0)),
+         ("bin", "eq", ("bin", "shl", ("int", 1), ("un", "neg", ("int", 1))), ("int", 0))]
+    D = [("bool", True), ("bool", False), ("bin", "ge", ("filesize",), ("int", 0)), ("bin", "lt", ("filesize",), ("int", 0))]
+    shape = rng.choice(["PU", "UP", "PUD", "PDU", "UPD", "DPU", "PUP", "PP", "PUU"])
+    ops = [rng.choice({"P": P, "U": U, "D": D}[k]) for k in shape]
+    c = (rng.choice(["or", "or", "and"]), ops)
+    r = rng.below(6)
+    if r == 0:
+        return ("un", "not", c)
+    if r == 1:
+        return ("defined", c)
+    if r == 2:
+        return (rng.choice(["and", "or"]), [c, rng.choice(P + D)])
+    return c
 
 
 def regex_match(rng, nvars):
